@@ -140,10 +140,12 @@ func genC02(seed int64, tier string) *Scenario {
 					p1, p2 = p2, p1
 				}
 				var ed Edit
-				switch r.Intn(3) {
-				case 0: // insert
+				switch kind := r.Intn(3); {
+				case nb > 1 && r.Intn(6) == 0: // a full replacement anywhere inside a batch
+					ed = Edit{Full: true, Text: randText(r, classes, eols, r.Intn(4))}
+				case kind == 0: // insert
 					ed = Edit{Start: p1, End: p1, Text: randText(r, classes, eols, 1+r.Intn(2))}
-				case 1: // delete
+				case kind == 1: // delete
 					ed = Edit{Start: p1, End: p2, Text: ""}
 				default:
 					ed = Edit{Start: p1, End: p2, Text: randText(r, classes, eols, 1+r.Intn(2))}
